@@ -349,6 +349,75 @@ Proof.
 Qed.
 
 (* ====================================================================================== *)
+(* a parsed item that is not serde-renamed is generated under its Rust name                 *)
+(* (get_ident of an item: no rename_all applies to the item's own name)                     *)
+(* ====================================================================================== *)
+Definition id_plain (i : id) : Prop := via_serde_rename i = false -> renamed i = original i.
+Definition ids_ok (pd : parsed) : Prop := forall it, In it (items_of pd) -> id_plain (item_id it).
+
+Lemma get_ident_plain uc ident attrs i : get_ident uc (Some ident) attrs None = Ok i -> id_plain i.
+Proof.
+  unfold get_ident. cbn [rename_all_to_case bind]. destruct (serde_rename uc attrs); intros [= <-] V; cbn in *; [discriminate|reflexivity].
+Qed.
+
+Ltac plain_step :=
+  match goal with
+  | H : bind ?x _ = Ok _ |- _ => let E := fresh "E" in destruct x eqn:E; cbn [bind] in H; try discriminate
+  | H : Ok _ = Ok _ |- _ => injection H as <-
+  | H : Err _ = Ok _ |- _ => discriminate
+  | H : Panic _ = Ok _ |- _ => discriminate
+  end.
+
+Lemma mk_alias_plain uc attrs ident gens t rit : mk_alias uc attrs ident gens t = Ok rit -> id_plain (item_id rit).
+Proof. unfold mk_alias. intros H. repeat plain_step. cbn [item_id aid]. eauto using get_ident_plain. Qed.
+
+Lemma parse_leaf_plain uc tstr T it rit : parse_leaf uc tstr T it = Ok rit -> id_plain (item_id rit).
+Proof.
+  destruct it as [a i g fs|a i g vs|a i g t|a i t e|u|inner]; cbn [parse_leaf]; try discriminate.
+  - unfold parse_struct. destruct (get_serialized_as_type uc a).
+    + intros H. repeat plain_step. cbn [item_id aid]. eauto using get_ident_plain.
+    + destruct fs as [l|l|].
+      * intros H. repeat plain_step. cbn [item_id sid]. eauto using get_ident_plain.
+      * destruct l as [|f [|f2 r]]; try discriminate. intros H. plain_step. eauto using mk_alias_plain.
+      * intros H. repeat plain_step. cbn [item_id sid]. eauto using get_ident_plain.
+  - unfold parse_enum. destruct (get_serialized_as_type uc a).
+    + intros H. repeat plain_step. cbn [item_id aid]. eauto using get_ident_plain.
+    + cbv zeta. intros H. plain_step. plain_step.
+      destruct (forallb _ _); destruct (get_tag_key uc a), (get_content_key uc a); try discriminate;
+        injection H as <-; cbn [item_id enum_shared eid]; eauto using get_ident_plain.
+  - unfold parse_type_alias. intros H. plain_step. eauto using mk_alias_plain.
+  - unfold parse_const. intros H. plain_step. plain_step.
+    match type of H with match ?r with _ => _ end = _ => destruct r end; try discriminate;
+      repeat plain_step; cbn [item_id cid]; eauto using get_ident_plain.
+Qed.
+
+Lemma push_ids_ok pd it : ids_ok pd -> id_plain (item_id it) -> ids_ok (push pd it).
+Proof. intros H Hi x Hx. apply push_items in Hx as [->|Hx]; [exact Hi|now apply H]. Qed.
+
+Lemma fold_collect_ids_ok rs : (forall it, In (Ok it) rs -> id_plain (item_id it)) ->
+  forall pd pd', ids_ok pd -> fold_collect rs pd = Ok pd' -> ids_ok pd'.
+Proof.
+  induction rs as [|r rs IH] using rev_ind; intros Hrs pd pd' H E.
+  - injection E as <-. exact H.
+  - rewrite fold_collect_app in E. destruct (fold_collect rs pd) as [p| |] eqn:F; cbn [bind] in E; try discriminate.
+    unfold fold_collect in E. cbn [fold_left bind] in E.
+    assert (Hp : ids_ok p) by (eapply IH; eauto; intros it Hit; apply Hrs, in_app_iff; now left).
+    destruct r as [it|e|s]; cbn [collect_result] in E; [|injection E as <-; exact Hp|discriminate].
+    injection E as <-. apply push_ids_ok; [exact Hp|]. apply Hrs, in_app_iff. right. now left.
+Qed.
+
+Lemma parse_file_ids_ok uc tstr T f pd : parse_file uc tstr T f = Ok (Some pd) -> ids_ok pd.
+Proof.
+  unfold parse_file. destruct (negb (fl_marker f)); [discriminate|].
+  destruct (accepts T (fl_attrs f)).
+  - rewrite visit_items_spec. destruct (fold_collect _ empty_parsed) as [p| |] eqn:F; cbn [bind]; try discriminate.
+    destruct (parsed_is_empty p); [discriminate|]. intros [= <-]. refine (fold_collect_ids_ok _ _ empty_parsed p _ F).
+    + intros it Hit. unfold wanted_results in Hit. apply in_map_iff in Hit as (x & Hx & _). eauto using parse_leaf_plain.
+    + intros it Hit. cbn in Hit. destruct Hit.
+  - cbn [bind]. change (parsed_is_empty empty_parsed) with true. discriminate.
+Qed.
+
+(* ====================================================================================== *)
 (* one file in multi-file mode                                                              *)
 (* ====================================================================================== *)
 Lemma parsed_is_empty_core pd : parsed_is_empty (core pd) = parsed_is_empty pd.
